@@ -112,3 +112,40 @@ Definition live_failures (G : graph) (order : list N) : list N * list N * list N
   (map jid (filter (fun d => negb (also_rank_ok rk d)) (all_decls G)),
    map fst (filter (fun h => negb (handler_ok G rk tbl h)) (handlers G)),
    map jid (filter (fun d => negb (static_ok G rk tbl d)) (statics G))).
+
+(* ---- no handler panic ------------------------------------------------------------------------
+   The handlers' hard rewrites (`.expect("... has to be pending")`) and complete-without-running
+   actions panic when their job is not pending.  A job is gated by handler c when it is created
+   with Unknown access and only c's handler ever settles it: it cannot start, hence cannot
+   complete, before that handler runs. *)
+Definition only_settler (G : graph) (c j : N) : bool :=
+  forallb (fun h => (fst h =? c) || negb (existsb (settles j) (snd h))) (handlers G).
+
+Definition declared_unknown (G : graph) (j : N) : bool :=
+  match find (fun d => jid d =? j) (all_decls G) with
+  | Some d => is_unknown (jacc d)
+  | None => false
+  end.
+
+Definition gate_ok (G : graph) (c : N) (pre : list action) (j : N) : bool :=
+  declared_unknown G j
+  && (memN j (map jid (statics G)) || memN j (map jid (add_decls pre)))
+  && negb (existsb (settles j) pre)
+  && only_settler G c j.
+
+Fixpoint calm_actions (G : graph) (c : N) (pre acts : list action) : bool :=
+  match acts with
+  | [] => true
+  | a :: t =>
+      match a with
+      | Rewrite false j _ => gate_ok G c pre j
+      | CompleteNow j => gate_ok G c pre j
+      | _ => true
+      end && calm_actions G c (pre ++ [a]) t
+  end.
+
+Definition calm_graph (G : graph) : bool :=
+  forallb (fun h => calm_actions G (fst h) [] (snd h)) (handlers G).
+
+Definition calm_failures (G : graph) : list N :=
+  map fst (filter (fun h => negb (calm_actions G (fst h) [] (snd h))) (handlers G)).
